@@ -38,7 +38,7 @@ def vstar(P, R, g, tol=1e-12):
     for _ in range(10000):
         v = evalpi(P, R, pi, g)
         qq = q(P, R, g, v)
-        keep = qq[np.arange(S), pi] >= qq.max(1) - tol * (1 + np.abs(qq).max())
+        keep = qq[np.arange(S), pi] >= qq.max(1) - tol * np.abs(qq).max()      # relative: any reward scale
         new = np.where(keep, pi, qq.argmax(1))
         if (new == pi).all():
             res = np.abs(bellman(P, R, g, v) - v).max()
@@ -75,7 +75,7 @@ def avg_pi(P, R, tol=1e-11):
     for _ in range(5000):
         g, h = avg_eval(P, R, pi)
         qq = R + P @ h
-        keep = qq[np.arange(S), pi] >= qq.max(1) - tol * (1 + np.abs(qq).max())
+        keep = qq[np.arange(S), pi] >= qq.max(1) - tol * (np.abs(qq).max() + 1e-300)
         new = np.where(keep, pi, qq.argmax(1))
         if (new == pi).all():
             return g, h, pi
